@@ -925,6 +925,51 @@ theorem roundtrip_zipkin (fbits : Bytes → Nat) (d d' : ZDec) (raw : ZSpan) (a 
     rw [hok'] at hspec
     simp [Except.map] at hspec
 
+/-- **every document, duplicates included: what each side takes.** For every span document the writer accepts and the
+    reader's parser reads alike — any member list, any name any number of times — the `onSpan` arguments are `lastArgs`:
+    every scalar member (`traceId`, `id`, `parentId`, `timestamp`, `duration`, `name`) by its LAST occurrence, the
+    service name from the last `localEndpoint` / `remoteEndpoint` member, a tag row for every occurrence; and reading
+    the row never fails: it is a span with the row's ids and times whose name and parent come from the FIRST `name` /
+    `parentId` member. The two agree when a name occurs once (`roundtrip_zipkin`); `roundtrip_zipkin_counterexample`
+    is a document where they do not. -/
+theorem zipkin_any_document (fbits : Bytes → Nat) (d d' : ZDec) (raw : ZSpan) (a : Args) (hag : raw.Agree)
+    (hdec : decodeSpan cfg d raw = .ok (d', a)) (hacc : a.accepted = true) :
+    a = lastArgs cfg raw ∧
+    a.name = ((zLast raw.fields fName).map (fun v => v.getD [])).getD [] ∧
+    a.parentId = ((zLast raw.fields fParentId).map (fun h => hexVal h cfg.parentHex)).getD [] ∧
+    ∃ rs, readRow cfg fbits (traceRowOf cfg.zipkinType a) = .span rs ∧
+      rs.traceId = a.traceId ∧ rs.spanId = a.spanId ∧
+      rs.startNs = toU64 a.ts ∧ rs.endNs = toU64 (wrap64 (a.ts + a.dur)) ∧
+      rs.name = ((zFind raw.fields fName).getD none).getD [] ∧
+      rs.parentSpanId = (match (zFind raw.fields fParentId).getD none with
+        | some h => (decodeParentId h).getD [] | none => []) := by
+  have hspec := decodeSpan_last cfg d raw
+  rw [hdec] at hspec
+  by_cases hok : raw.ok cfg = true
+  · rw [hok] at hspec
+    simp only [Except.map, if_true, Except.ok.injEq] at hspec
+    subst hspec
+    obtain ⟨_, hp2, _, _⟩ := payload_types_agree
+    have hlen : (lastArgs cfg raw).traceId.length = 16 ∧ (lastArgs cfg raw).spanId.length = 8 := by
+      simpa [Args.accepted] using hacc
+    have h16 : (traceRowOf cfg.zipkinType (lastArgs cfg raw)).traceId.length = 16 := hlen.1
+    have h8 : (traceRowOf cfg.zipkinType (lastArgs cfg raw)).spanId.length = 8 := hlen.2
+    have hpay : (traceRowOf cfg.zipkinType (lastArgs cfg raw)).payload = .zipkin raw := rfl
+    have hread : readRow cfg fbits (traceRowOf cfg.zipkinType (lastArgs cfg raw)) =
+        parseZipkinJSON (traceRowOf cfg.zipkinType (lastArgs cfg raw)) := by
+      simp [readRow, traceRowOf, hp2]
+    have hag' : raw.rfields = some raw.fields := hag
+    refine ⟨rfl, rfl, rfl, ?_⟩
+    rw [hread]
+    unfold parseZipkinJSON
+    rw [hpay]
+    simp only [hag', h16, h8, Nat.lt_irrefl, or_self, if_false, List.take_of_length_le (Nat.le_of_eq h16),
+      List.take_of_length_le (Nat.le_of_eq h8)]
+    exact ⟨_, rfl, rfl, rfl, rfl, rfl, rfl, rfl⟩
+  · have hok' : raw.ok cfg = false := by simpa using hok
+    rw [hok'] at hspec
+    simp [Except.map] at hspec
+
 /-! ### the same over span TEXTS (the trees the two JSON libraries parse a text to) -/
 
 /-- what the property promises for a text the writer accepts, with no side condition: the stored row reads back as
